@@ -192,3 +192,13 @@ def run(ctx):
     nm = fx.body("clap_builder::parser::arg_matcher::ArgMatcher::needs_more_vals")
     acc = nm.calls_to(r"ValueRange::accepts_more$")
     res.check(len(acc) == 1 and re.search(r"^unwrap_or\(and_then\((as_ref\()?self\.pending", expr(nm, acc[0].args[1])) is not None, "R2.6", "needs_more_vals", nm.where(), "needs_more_vals(arg) = range.accepts_more(#pending values of that arg)", "needs_more_vals changed: %s" % ([expr(nm, c.args[1])[:80] for c in acc]))
+
+    # ---- R2.4c global settings that decide about splitting reach every subcommand level (shared with C05 R5.8)
+    pg = fx.body("clap_builder::builder::command::Command::_propagate_subcommand")
+    wrote = {}
+    for f in ("settings", "g_settings"):
+        for i, s_ in writes_field(pg, f):
+            if s_["rv"]["k"] == "use":
+                wrote[f] = expr(pg, s_["rv"]["op"])
+    res.check(wrote.get("settings") == "bitor(sc.settings,self.g_settings)" and wrote.get("g_settings") == "bitor(sc.g_settings,self.g_settings)", "R2.4", "global-settings-handed-down", pg.where(),
+              "a subcommand receives the parent's global settings both as settings and as its own global settings", "_propagate_subcommand writes %s: global settings (dont_delimit_trailing_values, args_override_self, infer_long_args ...) stop at the first subcommand level" % wrote)
